@@ -387,6 +387,46 @@ def check_derivations(chk, rng, items, mechanism="select-derivations"):
                                "tree": [a for _, a in tree], "offered": offered, "expected": expected})
 
 
+def check_after_load_hook(chk, rng, n, mechanism="select-after-load-hook"):
+    """"the loaded schema" is what the loader hands back, i.e. after the `after_load_schema` hooks ran: a hook that edits
+    `schema.raw_schema` (drops an internal root field) decides what is offered, counted and generated."""
+    from schemathesis.hooks import GLOBAL_HOOK_DISPATCHER
+    for _ in range(n):
+        desc = c20_sdl.index_desc(rng)
+        sdl = c20_sdl.desc_to_sdl(desc)
+        base = load_sdl(sdl)
+        roots = py_root_fields(base)
+        if len(roots) < 2:
+            continue
+        victim = rng.choice(roots)          # [root, type name, field name]
+        form = rng.choice(["sdl", "dict"])
+
+        current = {"victim": victim}
+
+        def after_load_schema(context, schema):
+            victim = current["victim"]
+            for t in schema.raw_schema["__schema"]["types"]:
+                if t["name"] == victim[1] and t.get("fields"):
+                    t["fields"] = [f for f in t["fields"] if f["name"] != victim[2]]
+
+        GLOBAL_HOOK_DISPATCHER.register(after_load_schema)
+        try:
+            schema = load_sdl(sdl) if form == "sdl" else load_raw(copy.deepcopy(base.raw_schema))
+            offered = [op_triple(r.ok()) for r in schema.get_all_operations()]
+            stat = schema.statistic.operations
+        finally:
+            GLOBAL_HOOK_DISPATCHER.unregister(after_load_schema)
+        expected = [o for o in roots if not (o[1] == victim[1] and o[2] == victim[2])]
+        # one type serving both roots loses the field in both
+        chk.case(mechanism, key=[sdl, victim, form], nontrivial=True, sample={"dropped_by_hook": victim, "offered": offered, "form": form})
+        chk.feature(f"{mechanism}:form={form}")
+        if sorted(offered) != sorted(expected) or stat.total != len(expected):
+            chk.violation("C20:loader:operations-offered-differ-from-the-schema-as-loaded-with-its-after_load_schema-hooks",
+                          f"an after_load_schema hook removes {victim[1]}.{victim[2]} from raw_schema; offered {offered} "
+                          f"(total {stat.total}), the loaded schema has {expected}",
+                          {"kind": "after-load-hook", "sdl": sdl, "dropped": victim, "form": form, "offered": offered})
+
+
 def classify_lookup(chk, raw, mraw, history, impl, m, variant, mechanism):
     wire = {"raw": mraw, "history": history}
     model = m[variant]
@@ -1447,6 +1487,7 @@ def run(chk):
                       "specs": gen_filter_specs(rng, labels, schema.base_path)})
     check_select(chk, items, "select")
     check_derivations(chk, rng, items)
+    check_after_load_hook(chk, rng, chk.budget(40, 400))
     items = []
     for _ in range(chk.budget(120, 1200)):
         desc = c20_sdl.index_desc(rng)
